@@ -140,6 +140,16 @@ def summary_decompose(eng, st, args):
 
 
 def probes(vals, rnd, i):
+    if i % 4 == 1:
+        # calendar boundaries: first / last instants of a year, of February, around 1 March, before and after 1900
+        import datetime
+        y = rnd.choice([rnd.randint(1, 1899), rnd.randint(1, 1899), rnd.randint(1901, 9999), 1900, 1893, 1889, 1600, 2000, 2100, 2400])
+        mo, dd = rnd.choice([(1, 1), (1, 1), (12, 31), (2, 28), (3, 1), (2, 29) if datetime.date(y, 3, 1) - datetime.date(y, 2, 1) == datetime.timedelta(29) else (2, 28)])
+        day = (datetime.date(y, mo, dd) - datetime.date(1900, 1, 1)).days
+        tot = day * NPD + rnd.choice([0, 1, 500_000_000, NPD - 1, 10**9, rnd.randint(0, NPD - 1)])
+        vals["ts"] = rnd.choice([0, 1, 4])
+        vals["d_c"], vals["d_n"] = tot // NPC, tot % NPC
+        return
     vals["ts"] = rnd.randint(0, 8)
     vals["d_c"] = rnd.choice([0, 0, 1, -1, -1, 2, -3, 5, -19, 20, 81, rnd.randint(-25, 45)])
     if i % 2 == 0:
@@ -276,7 +286,7 @@ def obligations(tier, seed):
         MirOb("c09_fields_all_instants", "compute_gregorian@src/epoch/gregorian.rs", [In("d", "Duration"), In("ts", "TimeScale")], post_fields,
               "compute_gregorian: for EVERY elapsed time (|centuries| <= 30000) and every scale the seven fields are a valid civil date-time whose exact day count and time of day "
               "reproduce the elapsed time (so construction from them returns the identical epoch, C08); first/last nanosecond of every day, every year incl. before 1900 and far from it",
-              "compute_gregorian", pre=pre, probes=probes, ret_shape="greg7", min_paths=20, loop_bound=8, timeout_ms=180000, nprobe=60, feas_timeout_ms=1500,
+              "compute_gregorian", pre=pre, probes=probes, ret_shape="greg7", min_paths=20, loop_bound=8, timeout_ms=180000, nprobe=120, feas_timeout_ms=1500,
               modes=("dev",) if tier == "quick" else ("dev", "release"),
               summaries=summaries(), summaries_concrete={"::gregorian_epoch_offset": summary_gregorian_epoch_offset},
               loop_contracts=loop_contracts(), on_loop_failure=on_fail,
